@@ -119,16 +119,18 @@ def digitsVal : Str → Bool → Nat → Option Nat
       | c' :: _ => if '0' ≤ c' ∧ c' ≤ '9' then digitsVal cs false acc else none
     else none
 
+/-- An optional sign. -/
+def signSplit (s : Str) : Bool × Str :=
+  match s with
+  | '-' :: t => (true, t)
+  | '+' :: t => (false, t)
+  | _ => (false, s)
+
 /-- Python `int(s)` (base 10) for strings of code points below 256 (none of U+0080..U+00FF is a decimal
 digit; U+0085 and U+00A0 are white space). -/
 def pyInt (s : Str) : Except Err Int :=
   if s.any (fun c => c.toNat ≥ 256) then .error .unsupported else
-  let s := stripSpace s
-  let (neg, body) :=
-    match s with
-    | '-' :: t => (true, t)
-    | '+' :: t => (false, t)
-    | _ => (false, s)
+  let (neg, body) := signSplit (stripSpace s)
   match digitsVal body false 0 with
   | some n => .ok (if neg then -(Int.ofNat n) else Int.ofNat n)
   | none => .error .valueError
@@ -137,30 +139,38 @@ def valStr : Val → Except Err Str
   | .str s => .ok s
   | .true => .error .typeError
 
+/-- The value of one path rule: `d[key]`, literals and `str(os.getpid())` concatenated. -/
+def pathOf (pid : Str) (v : Str) : List C09Endpoints.PathPart → Str
+  | [] => []
+  | .key :: t => v ++ pathOf pid v t
+  | .lit s :: t => s ++ pathOf pid v t
+  | .pid :: t => pid ++ pathOf pid v t
+
+/-- `if k1 in d: path = ... elif k2 in d: path = ... `: the first rule whose key is in `d`; no rule: `path`
+keeps the value an earlier entry left in it. -/
+def unixPath (pid : Str) (d : Dict) (path : Option Str) :
+    List (Str × List C09Endpoints.PathPart) → Except Err (Option Str)
+  | [] => .ok path
+  | (k, parts) :: t =>
+    match dictGet k d with
+    | some v => do let s ← valStr v; pure (some (pathOf pid s parts))
+    | none => unixPath pid d path t
+
 /-- The body of the outer loop after the components were read: build the endpoint, if any.
 `path` is the value of the Python variable `path` left by earlier entries.  Returns the new `path`. -/
 def buildEndpoint (pid : Str) (kind : Kind) (d : Dict) (path : Option Str) :
     Except Err (Option Endpoint × Option Str) :=
   if kind = some C09Endpoints.unixKind then do
-    let path ←
-      match dictGet "path".toList d with
-      | some v => do let s ← valStr v; pure (some s)
-      | none =>
-        match dictGet "tmpdir".toList d with
-        | some v => do let s ← valStr v; pure (some (s ++ "/dbus-".toList ++ pid))
-        | none =>
-          match dictGet "abstract".toList d with
-          | some v => do let s ← valStr v; pure (some (Char.ofNat 0 :: s))
-          | none => pure path
+    let path ← unixPath pid d path C09Endpoints.unixPathRules
     match path with
     | none => .error .unboundLocal
     | some p => .ok (some { target := .unix p, args := d }, some p)
   else if kind = some C09Endpoints.tcpKind then
     -- TCP4ClientEndpoint(reactor, d['host'], int(d['port'])): arguments evaluated left to right
-    match dictGet "host".toList d with
+    match dictGet C09Endpoints.tcpHostKey d with
     | none => .error .keyError
     | some h =>
-      match dictGet "port".toList d with
+      match dictGet C09Endpoints.tcpPortKey d with
       | none => .error .keyError
       | some pv => do
         let ps ← valStr pv
@@ -189,47 +199,70 @@ deriving Repr
 /-- `getDBusEndpoints(reactor, busAddress)` (client side). -/
 def getDBusEndpoints (env : Env) (busAddress : Str) : Except Err (List Endpoint) := do
   let addr ←
-    if busAddress = "session".toList then
+    if busAddress = C09Endpoints.sessionWord then
       match env.session with
       | some a => pure a
       | none => .error .noSessionEnv
-    else if busAddress = "system".toList then
+    else if busAddress = C09Endpoints.systemWord then
       pure (env.system.getD C09Endpoints.systemDefault)
     else pure busAddress
   entries env.pid (splitOn C09Endpoints.entrySep addr) none
 
 /-! ## Spec side: well-formed address lists and their rendering (from the DBus specification:
-entries separated by ';', each `transport:key=value,key=value`). -/
+entries separated by ';', each `transport:key=value,key=value`).  Nothing below looks at the parser. -/
+
+/-- A decimal digit as a character. -/
+def digitChar (d : Fin 10) : Char := Char.ofNat (48 + d.val)
+
+/-- The number a digit string stands for. -/
+def portVal (ds : List (Fin 10)) : Nat := ds.foldl (fun a d => a * 10 + d.val) 0
 
 inductive SpecEntry
   | unixPath (path : Str)
   | unixAbstract (name : Str)
-  | tcp (host : Str) (port : Nat)
-  | nonceTcp (host : Str) (port : Nat) (noncefile : Str)
+  | tcp (host : Str) (port : List (Fin 10))
+  | nonceTcp (host : Str) (port : List (Fin 10)) (noncefile : Str)
 deriving DecidableEq, Repr
 
-def natDigits (n : Nat) : Str := (toString n).toList
+def kPath : Str := ['p','a','t','h']
+def kAbstract : Str := ['a','b','s','t','r','a','c','t']
+def kHost : Str := ['h','o','s','t']
+def kPort : Str := ['p','o','r','t']
+def kNoncefile : Str := ['n','o','n','c','e','f','i','l','e']
+def kNonceTcp : Str := ['n','o','n','c','e','-','t','c','p']
 
 def SpecEntry.render : SpecEntry → Str
-  | .unixPath p => "unix:path=".toList ++ p
-  | .unixAbstract a => "unix:abstract=".toList ++ a
-  | .tcp h p => "tcp:host=".toList ++ h ++ ",port=".toList ++ natDigits p
+  | .unixPath p => ['u','n','i','x',':'] ++ (kPath ++ '=' :: p)
+  | .unixAbstract a => ['u','n','i','x',':'] ++ (kAbstract ++ '=' :: a)
+  | .tcp h p => ['t','c','p',':'] ++ (kHost ++ '=' :: h) ++ ',' :: (kPort ++ '=' :: p.map digitChar)
   | .nonceTcp h p f =>
-    "nonce-tcp:host=".toList ++ h ++ ",port=".toList ++ natDigits p ++ ",noncefile=".toList ++ f
+    ['n','o','n','c','e','-','t','c','p',':'] ++ (kHost ++ '=' :: h) ++ ',' :: (kPort ++ '=' :: p.map digitChar) ++
+      ',' :: (kNoncefile ++ '=' :: f)
 
 /-- The endpoint a well-formed entry stands for. -/
 def SpecEntry.endpoint : SpecEntry → Endpoint
-  | .unixPath p => { target := .unix p, args := [("path".toList, .str p)] }
-  | .unixAbstract a => { target := .unix (Char.ofNat 0 :: a), args := [("abstract".toList, .str a)] }
-  | .tcp h p => { target := .tcp h p, args := [("host".toList, .str h), ("port".toList, .str (natDigits p))] }
+  | .unixPath p => { target := .unix p, args := [(kPath, .str p)] }
+  | .unixAbstract a => { target := .unix (Char.ofNat 0 :: a), args := [(kAbstract, .str a)] }
+  | .tcp h p =>
+    { target := .tcp h (portVal p), args := [(kHost, .str h), (kPort, .str (p.map digitChar))] }
   | .nonceTcp h p f =>
-    { target := .tcp h p,
-      args := [("nonce-tcp".toList, .true), ("host".toList, .str h), ("port".toList, .str (natDigits p)),
-               ("noncefile".toList, .str f)] }
+    { target := .tcp h (portVal p),
+      args := [(kNonceTcp, .true), (kHost, .str h), (kPort, .str (p.map digitChar)), (kNoncefile, .str f)] }
 
+/-- A value may not contain the three separators (the DBus specification requires them to be escaped). -/
+def plain (s : Str) : Prop := ';' ∉ s ∧ ',' ∉ s ∧ '=' ∉ s
+
+/-- Well-formed entry: plain values, a non-empty port. -/
+def SpecEntry.WF : SpecEntry → Prop
+  | .unixPath p => plain p
+  | .unixAbstract a => plain a
+  | .tcp h p => plain h ∧ p ≠ []
+  | .nonceTcp h p f => plain h ∧ p ≠ [] ∧ plain f
+
+/-- `';'.join(entries)`. -/
 def renderList : List SpecEntry → Str
   | [] => []
   | [e] => e.render
-  | e :: es => e.render ++ ';' :: renderList es
+  | e :: e' :: es => e.render ++ ';' :: renderList (e' :: es)
 
 end Txdbus.Client.Endpoints
